@@ -75,7 +75,8 @@ class Ctx:
             v = self.violations[key] = {"key": key, "count": 0, "cases": []}
         v["count"] += 1
         if len(v["cases"]) < MAX_CASES_PER_KEY:
-            v["cases"].append({"what": what, "case": case, "observed": _j(observed), "expected": _j(expected)})
+            v["cases"].append({"what": what, "case": case, "observed": _j(observed), "expected": _j(expected),
+                               "shard": {k: v_ for k, v_ in self.shard.items() if k != "case"}})
 
     def result(self) -> dict:
         nt_hashes = None
